@@ -2,11 +2,16 @@
    residuals of a 12-variable program with 53-bit dyadic coefficients are rationals with denominators of several
    thousand bits (Qplus does not reduce), far too slow on the inductive binary numbers. *)
 From Coq Require Import List ZArith QArith Qabs Extraction ExtrOcamlBasic ExtrOcamlZBigInt.
-From LN Require Import C04_Defs C04_Reduce C04_Step.
+From LN Require Import C04_Defs C04_Reduce C04_Step C04_Iter_Defs.
 Extraction Language OCaml.
+(* Z.gcd is not in the list of ExtrOcamlZBigInt: realised by Zarith's gcd (non-negative, gcd 0 b = |b|, as Z.gcd); only
+   C04_Iter_Defs.qnorm uses it, to keep the fractions of the iteration model reduced *)
+Extract Constant Z.gcd => "Big_int_Z.gcd_big_int".
 Extraction "extracted/c04_model.ml" dot vadd vsub vscale mv mtv sumsq msumsq vmaxc norm1 objective grad
   denom_target denom_ok normalizeP recompute model_done model_status feasible_dec converged_dec status_dec
   start_unfeasible_dec sysdim user_feasible_b phi zs4 Qltb
   entry stack reduce_sys reduce_model assemble lu_valid_b perm_b shape_b pmq_entry lu_entry inner_dim sat_b
   make_smax step_len step_point all_pos_b
+  qnorm vnorm vmul vquo vopp upd res2 res_init wvec hessvar lmat lvec back_subst trial stage1_ok stage2_ok revert_test sgn_sd
+  precise_test stage1 stage2 iter_core iter_step iter_start iter_run i_done sys_residual all_zero_b strict_b step_init
   Qred Qplus Qminus Qmult Qdiv Qopp Qabs.Qabs Qle_bool Qeq_bool inject_Z.
